@@ -32,3 +32,7 @@ package db
 //@ invoke "github.com/brutella/hc/db.Database.Entities"(d) (es, err)
 //@   fresh es
 //@   pure
+//@   ensures err == nil ==> len(es) == dbcount(d)
+
+// dbcount(d): number of stored entities (the accessory's own entity included)
+//@ ghost dbcount(ref) int
